@@ -20,6 +20,8 @@ pub(crate) unsafe fn cc_dealloc<T: ?Sized + Trace + 'static>(
     layout: Layout,
     state: &State
 ) {
+    #[cfg(feature = "verif-hooks")]
+    crate::verif::observe(crate::verif::ObsKind::BoxDealloc, ptr.cast::<()>().as_ptr() as usize, layout.size(), layout.align());
     state.record_deallocation(layout);
     dealloc(ptr.cast().as_ptr(), layout);
 }
@@ -38,6 +40,8 @@ pub(crate) unsafe fn alloc_other<T>() -> NonNull<T> {
 #[inline]
 pub(crate) unsafe fn dealloc_other<T>(ptr: NonNull<T>) {
     let layout = Layout::new::<T>();
+    #[cfg(feature = "verif-hooks")]
+    crate::verif::observe(crate::verif::ObsKind::OtherDealloc, ptr.as_ptr() as usize, layout.size(), layout.align());
     dealloc(ptr.cast().as_ptr(), layout);
 }
 
